@@ -174,4 +174,5 @@ def main(tier, seed, replay=None):
     ck.sample(cases[-1])
     ck.assumptions += ['rsync builds its file list first and transfers afterwards; a transfer is split at entry granularity only',
                        'sqlite3.Connection.backup yields a transactionally consistent copy of the index']
-    return ck.finish()
+    import tracecheck as _tc
+    return ck.finish(search=_tc.crash_search(ck, ck.pid))
